@@ -39,6 +39,9 @@ pub enum Act {
     DeliverToS,
     DropToC,
     DropToS,
+    /// the connection between C and S drops (messages in flight are lost, the attacker keeps what
+    /// it saw) and C dials again: same peer index at C, a new one at S
+    ReconnectCS,
     /// replay observed message #k to a target
     Replay(Target, u8),
     /// send a challenge carrying observed challenge value #j (255 = fresh)
@@ -56,6 +59,11 @@ pub struct Sim {
     pub chals: Vec<Hash>,
     /// (node, conn, challenge) that already led to Connected
     pub used: BTreeSet<(u8, u64, Hash)>,
+    /// S's current index for C's connection (changes when the connection is re-established)
+    pub cs: u64,
+    /// challenges each node issued on each of its connections since that connection was established
+    pub issued: BTreeMap<(u8, u64), BTreeSet<Hash>>,
+    pub reconnects: u8,
 }
 
 fn note(sim: &mut Sim, bytes: &[u8]) {
@@ -80,11 +88,21 @@ fn note(sim: &mut Sim, bytes: &[u8]) {
 fn collect(sim: &mut Sim) -> Vec<(u8, u64)> {
     let mut accepted = vec![];
     let parse = |s: &str| -> Option<u64> { s.strip_prefix("PeerHandshakeComplete(")?.strip_suffix(')')?.parse().ok() };
+    let issued_of = |b: &Vec<u8>| -> Option<Hash> {
+        match Message::deserialize(b.clone()) {
+            Ok(Message::HandshakeChallenge(c)) => Some(c.challenge),
+            Ok(Message::HandshakeResponse(r)) if r.challenge != [0; 32] => Some(r.challenge),
+            _ => None,
+        }
+    };
     for o in sim.s.io.take_outbox() {
         match o {
             Out::Send { peer, buffer } => {
                 note(sim, &buffer);
-                if peer == CS {
+                if let Some(h) = issued_of(&buffer) {
+                    sim.issued.entry((0, peer)).or_default().insert(h);
+                }
+                if peer == sim.cs {
                     sim.to_c.push_back(buffer);
                 }
             }
@@ -100,6 +118,9 @@ fn collect(sim: &mut Sim) -> Vec<(u8, u64)> {
         match o {
             Out::Send { peer, buffer } => {
                 note(sim, &buffer);
+                if let Some(h) = issued_of(&buffer) {
+                    sim.issued.entry((1, peer)).or_default().insert(h);
+                }
                 if peer == SC {
                     sim.to_s.push_back(buffer);
                 }
@@ -131,7 +152,7 @@ pub fn start() -> Result<Sim, String> {
     if !dial {
         return Err("C did not dial".into());
     }
-    let mut sim = Sim { s, c, to_c: VecDeque::new(), to_s: VecDeque::new(), observed: vec![], chals: vec![], used: BTreeSet::new() };
+    let mut sim = Sim { s, c, to_c: VecDeque::new(), to_s: VecDeque::new(), observed: vec![], chals: vec![], used: BTreeSet::new(), cs: CS, issued: BTreeMap::new(), reconnects: 0 };
     // connection established at both ends; the attacker connects as well
     if !sim.c.net(NetworkEvent::PeerConnectionResult { result: Ok((SC, None)) }).is_done() {
         return Err("C connect".into());
@@ -206,6 +227,9 @@ pub fn enabled(sim: &Sim, thorough: bool) -> Vec<Act> {
         v.push(Act::DeliverToS);
         v.push(Act::DropToS);
     }
+    if sim.reconnects == 0 {
+        v.push(Act::ReconnectCS);
+    }
     let targets = [Target::SonM, Target::SonC, Target::ConS, Target::ConM];
     for t in targets {
         for k in 0..sim.observed.len().min(if thorough { 8 } else { 6 }) {
@@ -237,6 +261,38 @@ pub fn apply(sim: &mut Sim, a: Act, rep: &mut Report, hist: &[Act]) -> bool {
         },
         Act::DropToC => return sim.to_c.pop_front().is_some(),
         Act::DropToS => return sim.to_s.pop_front().is_some(),
+        Act::ReconnectCS => {
+            use saito_core::core::io::network::PeerDisconnectType;
+            sim.reconnects += 1;
+            sim.to_c.clear();
+            sim.to_s.clear();
+            let old = sim.cs;
+            let r1 = sim.c.net(NetworkEvent::PeerDisconnected { peer_index: SC, disconnect_type: PeerDisconnectType::ExternalDisconnect });
+            let r2 = sim.s.net(NetworkEvent::PeerDisconnected { peer_index: old, disconnect_type: PeerDisconnectType::ExternalDisconnect });
+            if !r1.is_done() || !r2.is_done() {
+                rep.violate("handler-abort/disconnect", format!("{} / {}", r1.label(), r2.label()), ctx.clone());
+                return true;
+            }
+            collect(sim);
+            // C dials again
+            let _ = sim.c.tick_routing(2_000);
+            let dial = sim.c.io.take_outbox().into_iter().any(|o| matches!(o, Out::Connect { .. }));
+            if !dial {
+                rep.outcome("reconnect:C-did-not-redial");
+                return true;
+            }
+            sim.issued.remove(&(1, SC));
+            sim.issued.remove(&(0, old));
+            sim.cs = 3;
+            let r3 = sim.c.net(NetworkEvent::PeerConnectionResult { result: Ok((SC, None)) });
+            let r4 = sim.s.net(NetworkEvent::PeerConnectionResult { result: Ok((3, None)) });
+            if !r3.is_done() || !r4.is_done() {
+                rep.violate("handler-abort/reconnect", format!("{} / {}", r3.label(), r4.label()), ctx.clone());
+            }
+            collect(sim);
+            rep.outcome("reconnect:done");
+            return true;
+        }
         _ => match build(sim, &a) {
             Some(x) => x,
             None => return false,
@@ -245,7 +301,7 @@ pub fn apply(sim: &mut Sim, a: Act, rep: &mut Report, hist: &[Act]) -> bool {
     let genuine = matches!(a, Act::DeliverToC | Act::DeliverToS);
     let (node_id, conn): (u8, u64) = match target {
         Target::SonM => (0, MS),
-        Target::SonC => (0, CS),
+        Target::SonC => (0, sim.cs),
         Target::ConS => (1, SC),
         Target::ConM => (1, MC),
     };
@@ -276,6 +332,9 @@ pub fn apply(sim: &mut Sim, a: Act, rep: &mut Report, hist: &[Act]) -> bool {
                     (Some(ch), Some(Message::HandshakeResponse(r))) => {
                         if !verify(&ch, &r.signature, &r.public_key) || r.public_key != k {
                             rep.violate("connected-without-valid-signature-over-own-challenge", format!("{:?}", hist), ctx.clone());
+                        }
+                        if !sim.issued.get(&(nid, pa.0)).map(|x| x.contains(&ch)).unwrap_or(false) {
+                            rep.violate("connected-over-a-challenge-not-issued-on-this-connection", format!("node {} connection {}: the accepted challenge was issued before the connection was re-established ({:?})", nid, pa.0, hist), ctx.clone());
                         }
                         if !sim.used.insert((nid, pa.0, ch)) {
                             rep.violate("challenge-accepted-twice", format!("{:?}", hist), ctx.clone());
@@ -341,7 +400,13 @@ pub fn digest(sim: &Sim) -> Hash {
     // (the set is ordered by the random challenge values: order the renamed triples instead)
     let mut used: Vec<_> = sim.used.iter().map(|(n, c, h)| (*n, *c, name(&Some(*h)))).collect();
     used.sort();
-    saito_core::core::util::crypto::hash(format!("{:?}|{:?}|{:?}|{:?}|{:?}|{:?}|{:?}", st, ct, at, q1, q2, ob, used).as_bytes())
+    let mut issued: Vec<(u8, u64, Vec<i64>)> = sim.issued.iter().map(|((n, c), hs)| {
+        let mut v: Vec<i64> = hs.iter().map(|h| name(&Some(*h))).collect();
+        v.sort();
+        (*n, *c, v)
+    }).collect();
+    issued.sort();
+    saito_core::core::util::crypto::hash(format!("{:?}|{:?}|{:?}|{:?}|{:?}|{:?}|{:?}|{}|{}|{:?}", st, ct, at, q1, q2, ob, used, sim.cs, sim.reconnects, issued).as_bytes())
 }
 
 fn replay(hist: &[Act], rep: &mut Report) -> Option<Sim> {
